@@ -109,6 +109,35 @@ def check_direct(pi: int, nsk: int, n: int, named: bool, kind: int) -> bool:
         all(a is b or a == b for a, b in zip(r.args, given))
 
 
+def _outcome_matches(exp, call) -> bool:
+    try:
+        r = call()
+    except exceptions.UnknownFunctionException as e:
+        return exp[0] == "unknown" and e.function_name == exp[1]
+    except exceptions.ArgumentCountException as e:
+        return exp[0] == "count" and (e.function_name, e.exp_min_args, e.exp_max_args, e.n_args_given) == exp[1]
+    return exp[0] == "ok" and type(r) is ast.Call
+
+
+HIST_NS = [((), ("geo",)), (("geo",), ()), (("other",), ()), ((), ("other",)), ((), ()), (("geo",), ("geo",))]
+
+
+def check_history(pi: int, hk: int, n1: int, n2: int, same_parser: bool) -> bool:
+    """acceptance does not depend on what was checked before: a first call with the same bare name in another (or
+    the same) namespace / another argument count - accepted or rejected - never changes the verdict of a second call,
+    neither on the same parser instance nor on a new one (no state on the instance, the class or the module)."""
+    name = POOL[pi]
+    ns1, ns2 = HIST_NS[hk]
+    p1 = ODataParser()
+    try:
+        p1._function_call(ast.Identifier(name, ns1), [mk_arg(j, j) for j in range(n1)])
+    except exceptions.ODataException:
+        pass
+    p2 = p1 if same_parser else ODataParser()
+    full2 = ".".join(ns2 + (name,))
+    return _outcome_matches(expected(full2, ns2, n2), lambda: p2._function_call(ast.Identifier(name, ns2), [mk_arg(j, j) for j in range(n2)]))
+
+
 _LEX = ODataLexer()
 
 
@@ -221,13 +250,21 @@ def main() -> int:
                               f"check_text(pi, {nsk}, n, {kind}, {ws})",
                               describe={"names": [POOL[i] for i in idxs], "namespace": list(NS_KINDS[nsk])},
                               family="text->parser"))
+    for lo in range(0, ne, 8):
+        hi = min(ne, lo + 8)
+        for hk in range(len(HIST_NS)):
+            items.append(Item(f"hist_{lo}_{hk}", "pi: int, n1: int, n2: int, same_parser: bool",
+                              f"{lo} <= pi < {hi} and 1 <= n1 <= 2 and 0 <= n2 <= 2",
+                              f"check_history(pi, {hk}, n1, n2, same_parser)",
+                              describe={"names": POOL[lo:hi], "first namespace": list(HIST_NS[hk][0]), "second namespace": list(HIST_NS[hk][1])},
+                              family="history-independence"))
     for nsk in range(len(NS_KINDS)):
         items.append(Item(f"named_{nsk}", "n: int, ws: bool", f"1 <= n <= 5",
                           f"check_named_text({nsk}, n, {nsk % ARG_KINDS}, ws)", describe={"namespace": list(NS_KINDS[nsk])},
                           family="named-parameters"))
     for it in items[:3]:
         run.sample({"harness": it.name, "call": it.call, "describe": it.describe})
-    header = "from verif.props.c11 import check_direct, check_text, check_named_text\n"
+    header = "from verif.props.c11 import check_direct, check_text, check_named_text, check_history\n"
     run_items(run, header, items, per_condition_timeout=90 if quick else 300,
               progress=bool(os.environ.get("VERIF_PROGRESS")))
     return run.finish()
